@@ -134,6 +134,13 @@ def scope_of(*prefixes):
 
 def mc_store(chk):
     chk.mc("MC_Store", "MC_Store_thorough.cfg" if thorough(chk) else "MC_Store.cfg", workers=8, timeout=3000)
+    # end-to-end composition: builder ; interruptible save ; open ; builder ...
+    chk.mc("PMTiles", "PMTiles_thorough.cfg" if thorough(chk) else "PMTiles.cfg", workers=8, timeout=3000)
+    # control: with a colliding content hash the builder no longer refines the map (the injectivity assumption is necessary)
+    res = vlib.run_tlc("MC_Store", "MC_Store_collision.cfg", chk.wd, "mc_store_collision", workers=4, timeout=600)
+    if "Invariant Refines is violated" not in open(res["out_path"]).read():
+        raise ToolError("MC_Store control: a colliding hash does not violate Refines (model vacuous)")
+    chk.cov["negative_controls_rejected"] += 1
 
 
 def drive(chk, family, extra=None, name=None):
@@ -317,7 +324,7 @@ def c02(chk):
         o["file"]["meta"]["kind"] = "array"
     neg_segment(chk, seg, c_meta, "metakind", "C02")
     def c_flen(o):
-        o["file"]["flen"] = [0, 0, 0, 200]
+        o["file"]["flen"] = [0, 0, 0, 128]        # shorter than header + root: sections cannot be inside the file
     neg_segment(chk, seg, c_flen, "flen", "C02")
     f = json.loads(seg[-1])["file"]
     chk.sample({"hdr": f["hdr"], "root_raw_len": len(f["root"]["raw"]), "leaves": len(f["leaves"]), "tiles": f["tiles"][:3], "meta": f["meta"]})
